@@ -1,7 +1,9 @@
 package main
 
 import (
+	"bufio"
 	"encoding/json"
+	"net"
 	"fmt"
 	"strings"
 	"sync"
@@ -25,6 +27,9 @@ type c18Txn struct {
 	Rcpts  []c18Rcpt `json:"rcpts"`
 	WithCb bool      `json:"withcb"`
 	Reset  bool      `json:"reset_before"` // client.Reset() before this transaction
+	// scripted peer only: the DATA command itself is answered 451; the client's
+	// Data/LMTPData fails and the application goes on with the next MAIL
+	DataRefused bool `json:"data_refused,omitempty"`
 }
 
 type c18Case struct {
@@ -40,14 +45,35 @@ type c18Case struct {
 // runC18 drives the real LMTP client through the scenario against a real
 // LMTP server with a scripted per-recipient backend.
 func runC18(sc []c18Txn) ([]*c18Case, string, error) {
-	srv := drv.Start(drv.Cfg{LMTP: true, LMTPBackend: true, MaxLine: 2000})
-	defer srv.Stop()
-	cn, err := srv.Dial()
-	if err != nil {
-		return nil, "", err
+	fake := false
+	for _, tx := range sc {
+		if tx.DataRefused {
+			fake = true
+		}
 	}
-	defer cn.Close()
-	cl := smtp.NewClientLMTP(cn.Raw)
+	var srv *drv.Server
+	var cl *smtp.Client
+	var err error
+	if fake {
+		// a scripted LMTP peer: the real server never refuses DATA once it has recipients
+		a, b := net.Pipe()
+		defer a.Close()
+		defer b.Close()
+		go c18FakePeer(b, sc)
+		cl = smtp.NewClientLMTP(a)
+		if err := cl.Hello("c18.test"); err != nil {
+			return nil, "", err
+		}
+	} else {
+		srv = drv.Start(drv.Cfg{LMTP: true, LMTPBackend: true, MaxLine: 2000})
+		defer srv.Stop()
+		cn, err := srv.Dial()
+		if err != nil {
+			return nil, "", err
+		}
+		defer cn.Close()
+		cl = smtp.NewClientLMTP(cn.Raw)
+	}
 	cl.CommandTimeout = 3 * time.Second
 	cl.SubmissionTimeout = 1500 * time.Millisecond
 	type res struct {
@@ -82,10 +108,12 @@ func runC18(sc []c18Txn) ([]*c18Case, string, error) {
 				}
 				ops = append(ops, rec.StatusOp{Addr: addr, Err: st})
 			}
-			srv.BE.Lock()
-			srv.BE.RcptErrs = rerrs
-			srv.BE.DataPlans = []rec.DataPlan{{Status: ops}}
-			srv.BE.Unlock()
+			if srv != nil {
+				srv.BE.Lock()
+				srv.BE.RcptErrs = rerrs
+				srv.BE.DataPlans = []rec.DataPlan{{Status: ops}}
+				srv.BE.Unlock()
+			}
 			if err := cl.Mail(fmt.Sprintf("s%d@x.test", ti+1), nil); err != nil {
 				done <- res{out, fmt.Sprintf("txn %d: Mail: %v", ti+1, err)}
 				return
@@ -120,6 +148,13 @@ func runC18(sc []c18Txn) ([]*c18Case, string, error) {
 			} else {
 				w, err = cl.Data()
 			}
+			if tx.DataRefused {
+				if err == nil {
+					done <- res{out, fmt.Sprintf("txn %d: the DATA command was answered 451 and Data returned no error", ti+1)}
+					return
+				}
+				continue // abandoned: no Reset, the next MAIL follows
+			}
 			if err != nil {
 				done <- res{out, fmt.Sprintf("txn %d: Data: %v", ti+1, err)}
 				return
@@ -147,6 +182,79 @@ func runC18(sc []c18Txn) ([]*c18Case, string, error) {
 		return r.cases, r.msg, nil
 	case <-time.After(20 * time.Second):
 		return nil, "client did not finish within 20 s", nil
+	}
+}
+
+// c18FakePeer is a scripted LMTP server following the scenario.
+func c18FakePeer(conn net.Conn, sc []c18Txn) {
+	br := bufio.NewReader(conn)
+	say := func(f string, a ...interface{}) { fmt.Fprintf(conn, f+"\r\n", a...) }
+	say("220 fake.test LMTP")
+	ti := -1
+	ri := 0
+	var accepted []c18Rcpt
+	for {
+		conn.SetReadDeadline(time.Now().Add(10 * time.Second))
+		line, err := br.ReadString('\n')
+		if err != nil {
+			return
+		}
+		u := strings.ToUpper(strings.TrimSpace(line))
+		switch {
+		case strings.HasPrefix(u, "LHLO"):
+			say("250-fake.test")
+			say("250 ENHANCEDSTATUSCODES")
+		case strings.HasPrefix(u, "MAIL"):
+			ti++
+			// transactions that were skipped without MAIL do not exist: the client sends MAIL for every one
+			ri, accepted = 0, nil
+			say("250 2.1.0 ok")
+		case strings.HasPrefix(u, "RCPT"):
+			if ti < 0 || ti >= len(sc) || ri >= len(sc[ti].Rcpts) {
+				say("503 5.5.1 unexpected RCPT")
+				continue
+			}
+			r := sc[ti].Rcpts[ri]
+			ri++
+			if r.Refused {
+				say("550 5.1.1 no such user")
+			} else {
+				accepted = append(accepted, r)
+				say("250 2.1.5 ok")
+			}
+		case u == "DATA":
+			if ti >= 0 && ti < len(sc) && sc[ti].DataRefused {
+				accepted = nil
+				say("451 4.3.0 not now")
+				continue
+			}
+			say("354 go ahead")
+			for {
+				l, err := br.ReadString('\n')
+				if err != nil {
+					return
+				}
+				if l == ".\r\n" {
+					break
+				}
+			}
+			for _, r := range accepted {
+				if r.Code == 250 {
+					say("250 2.0.0 <%s@x.test> ok", r.Name)
+				} else {
+					say("%d %d.2.2 <%s@x.test> verdict", r.Code, r.Code/100, r.Name)
+				}
+			}
+			accepted = nil
+		case u == "RSET":
+			accepted = nil
+			say("250 2.0.0 ok")
+		case u == "QUIT":
+			say("221 2.0.0 bye")
+			return
+		default:
+			say("500 5.5.1 what")
+		}
 	}
 }
 
@@ -185,6 +293,24 @@ func genC18(maxTxn, maxR int) [][]c18Txn {
 			sc = append(sc, t)
 		}
 		out = append(out, sc)
+		// the same sequence against the scripted peer, one transaction ended by a refused DATA command
+		if i%3 == 0 && len(sc) > 1 {
+			fs := append([]c18Txn{}, sc...)
+			k := i % (len(fs) - 1)
+			hasAcc := false
+			for _, r := range fs[k].Rcpts {
+				if !r.Refused {
+					hasAcc = true
+				}
+			}
+			if hasAcc {
+				fs[k].DataRefused = true
+				for j := range fs {
+					fs[j].Reset = false
+				}
+				out = append(out, fs)
+			}
+		}
 	}
 	return out
 }
